@@ -5,10 +5,10 @@ import os
 from . import common as c
 
 SUPPORT = ["Cache/PCache.v", "Cache/PCacheArr.v", "Cache/PCacheProbe.v", "Cache/PCacheInv.v", "Cache/PCacheProofs.v",
-           "Cache/LoadMap.v", "Cache/LoadMapProofs.v", "Cache/Served.v", "Cache/C09Model.v", "Cache/C09Thm.v"]
+           "Cache/LoadMap.v", "Cache/LoadMapProofs.v", "Cache/Served.v", "Cache/ResolverCache.v", "Cache/C09Model.v", "Cache/C09Thm.v"]
 
 CLAIM = {
-    "gens": ["CacheConsts", "LoaderMap", "EncCacheKey"],
+    "gens": ["CacheConsts", "LoaderMap", "EncCacheKey", "ResolverUse"],
     "category": "proof",
     "text": ("Theorems (Coq, over an executable transcription of internal/caching/pcache.go and of loader.LoadMany/Load): for EVERY hash "
              "function of the type descriptors (collisions adversarial), every initial power-of-two capacity and every sequence of "
@@ -19,7 +19,9 @@ CLAIM = {
              "loader_latest.go - the pinned tree mapped results back by name, repaired by /repo cc3de94; a return to that shape breaks the proof). "
              "served_history_free: the encoder program caches are keyed by (type, pointer-value flag) - key shape regenerated from "
              "internal/encoder/vars/cache.go - so after EVERY history of FindOrCompile / pretouchType / pretouchRec calls the program that "
-             "serves (type, pv) is compile(type, pv) (false for the type-only key of the pinned tree, repaired by /repo ea86c56). The model is tied to the real code by running the same op sequences through a verif hook (chosen hashes, "
+             "serves (type, pv) is compile(type, pv) (false for the type-only key of the pinned tree, repaired by /repo ea86c56). "
+             "resolver_stable: the shared field-resolution cache (internal/resolver) is never written by its three callers (write / escape list "
+             "regenerated from the sources), so every lookup after any history of compilations returns resolveFields(type). The model is tied to the real code by running the same op sequences through a verif hook (chosen hashes, "
              "slot-layout digests) and LoadMany on stub functions. History independence of the public API (Marshal/Unmarshal after "
              "arbitrary preludes incl. Pretouch with compile options and thousands of types) is decided by differential runs in fresh "
              "child processes - tie/search half, not a theorem; the encoder/decoder compilers are not modelled here."),
@@ -193,7 +195,7 @@ def run(ctx):
     if replay_kind in (None, "hist"):
         hj = os.path.join(work, "h.json")
         cmd = [hb, "-mode", "hist", "-seed", str(ctx.seed), "-out", hj, "-corpus", corpus, "-j", "8",
-               "-n", "14" if quick else "220", "-heavy", "1" if quick else "6", "-pool", "2" if quick else "12"]
+               "-n", "14" if quick else "220", "-heavy", "1" if quick else "6", "-pool", "2" if quick else "12", "-copts", "1" if quick else "8"]
         if quick:
             cmd += ["-heavytiny"]
         else:
